@@ -166,7 +166,7 @@ func cmdVerify(args []string) {
 		sort.Strings(keys)
 	}
 	fmt.Printf("loaded in %.1fs\n", time.Since(t0).Seconds())
-	outDir := filepath.Join(verifDir, "out", "smt", "dev")
+	outDir := filepath.Join(outRoot, "smt", "dev")
 	os.RemoveAll(outDir)
 	res := verifyFns(g, keys, outDir, *tier, 0)
 	bad := 0
